@@ -122,6 +122,33 @@ NLt(a, b) == NCmp(a, b) < 0
 NLe(a, b) == NCmp(a, b) <= 0
 NIsPow2(a) == a # <<>> /\ NTrailingZeros(a) = NBitLen(a) - 1
 
+\* floor division and remainder by shift-and-subtract, one quotient bit per step (b # 0)
+RECURSIVE NDivStep(_, _, _, _, _)
+NDivStep(a, b, i, q, r) ==
+  IF i < 0 THEN <<q, r>>
+  ELSE LET r2 == NAdd(NShl(r, 1), IF NBit(a, i) = 1 THEN NOne ELSE <<>>)
+       IN  IF NCmp(r2, b) >= 0
+           THEN NDivStep(a, b, i - 1, NAdd(NShl(q, 1), NOne), NSub(r2, b))
+           ELSE NDivStep(a, b, i - 1, NShl(q, 1), r2)
+\* OVERRIDABLE: <<floor(a / b), a mod b>>
+NDivMod(a, b) == NDivStep(a, b, NBitLen(a) - 1, <<>>, <<>>)
+NDiv(a, b) == NDivMod(a, b)[1]
+NMod(a, b) == NDivMod(a, b)[2]
+
+\* floor square root, one result bit per step
+RECURSIVE NSqrtStep(_, _, _)
+NSqrtStep(a, i, r) ==
+  IF i < 0 THEN r
+  ELSE LET c == NAdd(r, NPow2(i))
+       IN  IF NCmp(NMul(c, c), a) <= 0 THEN NSqrtStep(a, i - 1, c) ELSE NSqrtStep(a, i - 1, r)
+\* OVERRIDABLE
+NSqrt(a) == IF a = <<>> THEN <<>> ELSE NSqrtStep(a, NBitLen(a) \div 2, <<>>)
+NIsSquare(a) == LET r == NSqrt(a) IN NMul(r, r) = a
+
+RECURSIVE NGcd(_, _)
+\* OVERRIDABLE
+NGcd(a, b) == IF b = <<>> THEN a ELSE NGcd(b, NMod(a, b))
+
 IsNat(a) == /\ a \in Seq(0..(B - 1))
             /\ (a = <<>> \/ a[Len(a)] # 0)
 
@@ -200,4 +227,10 @@ QAbs(a) == <<ZAbs(a[1]), a[2]>>
 QInv(a) == <<ZMk(a[1][1], a[2]), a[1][2]>>           \* requires a # 0
 QDiv(a, b) == QMul(a, QInv(b))
 QIsZero(a) == ZIsZero(a[1])
+QNorm(a) == IF ZIsZero(a[1]) THEN <<ZZero, NOne>>
+            ELSE LET g == NGcd(a[1][2], a[2]) IN <<ZMk(a[1][1], NDiv(a[1][2], g)), NDiv(a[2], g)>>
+QFromInt(n) == <<ZFromInt(n), NOne>>
+\* exact square root of a rational when it is one (both parts perfect squares after reduction)
+QIsSquare(a) == ZSign(a[1]) >= 0 /\ LET n == QNorm(a) IN NIsSquare(n[1][2]) /\ NIsSquare(n[2])
+QSqrt(a) == LET n == QNorm(a) IN <<ZFromNat(NSqrt(n[1][2])), NSqrt(n[2])>>
 =============================================================================
